@@ -46,7 +46,14 @@ Verdict(c) ==
      ELSE IF ~c.total THEN "AssignmentIsTotal"
      ELSE IF c.weight[1] > DerivationWeight(c.ag, c.d, c.assts) \/ DerivationWeight(c.ag, c.d, c.assts) > c.weight[2] THEN "WeightIsProductOfRuleInstances"
      ELSE "ok"
-  ELSE IF c.kind = "wrong" THEN StepClause(c.step)
+  ELSE IF c.kind = "derive_shared" THEN
+     \* the same tree, but identical subderivations are ONE FGGDerivation object used at several positions:
+     \* every use is its own rule instance (sizes of the derived graph, totality, weight)
+     IF c.out # "ok" THEN "Raised"
+     ELSE IF c.nn # Cardinality(DvNodes(c.ag, c.d)) \/ c.ne # Cardinality(DvEdges(c.ag, c.d)) THEN "DeriveYieldsTheDerivedGraph"
+     ELSE IF ~c.total THEN "AssignmentIsTotal"
+     ELSE IF c.weight[1] > DerivationWeight(c.ag, c.d, c.assts) \/ DerivationWeight(c.ag, c.d, c.assts) > c.weight[2] THEN "WeightIsProductOfRuleInstances"
+     ELSE "ok"
   ELSE "UnknownCase"
 
 Lins(c) == IF c.kind = "lins" THEN SetToSeq(DvLinearisations(c.d)) ELSE <<>>
